@@ -208,6 +208,13 @@ def h_eqne(ctx, cfg):
     ctx.prove(hash(f) == hash(g), "equal-filters-hash-equal")
   ctx.prove(bool(f == f) and not bool(f != f), "reflexive")
   ctx.prove((f == 3) is False or not bool(f == 3), "eq-with-non-filter")
+  # the other operand need not be a LinearFilter: a number, a one-section cascade / parallel bank of the same filter
+  from audiolazy import CascadeFilter, ParallelFilter
+  c = ctx.real("c")
+  for tag, other in (("number", c), ("cascade", CascadeFilter(f)), ("parallel", ParallelFilter(f)), ("none", None)):
+    for a, b, side in ((f, other, "left"), (other, f, "right")):
+      e2, ne2 = bool(a == b), bool(a != b)
+      ctx.prove(e2 != ne2, "exactly-one-of-eq-ne", "other operand: %s on the %s, eq=%s ne=%s" % (tag, side, e2, ne2))
 
 
 def h_eq_order(ctx, cfg):
